@@ -21,14 +21,16 @@ if [ "$REPO" != "/repo" ]; then
 fi
 # The binary is linked under a private name and moved into place only when it differs from the one already there:
 # checks may run side by side, and a binary that is being executed cannot be rewritten in place.
-build_to() { # <name> [extra go build flags]
-  local name=$1; shift
+build_to() { # <name> <package> [extra go build flags]
+  local name=$1 pkg=$2; shift 2
   local tmp="$BIN/.$name.$$"
-  (cd harness && go build $MODFILE -tags verif "$@" -o "$tmp" ./cmd/vcheck) || { rm -f "$tmp"; return 1; }
+  (cd harness && go build $MODFILE -tags verif "$@" -o "$tmp" "$pkg") || { rm -f "$tmp"; return 1; }
   if [ -f "$BIN/$name" ] && cmp -s "$tmp" "$BIN/$name"; then rm -f "$tmp"; else mv -f "$tmp" "$BIN/$name"; fi
 }
-build() { build_to vcheck; }
-build_race() { build_to vcheck-race -race; }
+build() { build_to vcheck ./cmd/vcheck; }
+# vcold: the cold-start trial of C17 as a program of its own (it must not link anything that touches the reader or
+# writer package at init time)
+build_race() { build_to vcheck-race ./cmd/vcheck -race && build_to vcold ./cmd/vcold && build_to vcold-race ./cmd/vcold -race; }
 needs_race() { case "$1" in C11|C17) return 0;; esac; return 1; }
 case "${1:-}" in
   setup)
